@@ -71,7 +71,8 @@ def run(ctx, res):
         if cfg["kind"] in ("kk", "km", "kw"):
             continue
         nd.append({"cfg": cfg, "xs": xs, "impl": nnm.run_impl(cfg, xs, variant=i), "tag": "non-dyadic (oracle only)"})
-    for c in cases + extra + nd:
+    lg = [c for c in nnm.long_cases(ctx.rng, ctx.n(120, 1200), kinds=["alpha_fixed", "alpha_shrink", "bet_fixed", "bet_agrapa", "sprt", "alpha_optcomp"])]
+    for c in cases + extra + nd + lg:
         res.evaluations += 1
         res.oracle_runs += 1
         if len(set(c["xs"])) > 1:
@@ -83,5 +84,5 @@ def run(ctx, res):
                 "u from 1+2^-30 to 2), finite and infinite N, samples incl. runs of zeros that make a fixed alternative impossible; "
                 "non-trivial = non-constant sample")
     res.samples = [nnm.case_json(c) for c in (cases[:2] + extra[:2])]
-    res.stats = nnm.branch_stats(cases + extra)
+    res.stats = dict(nnm.branch_stats(cases + extra), **nnm.long_stats(lg))
     res.assumptions = ["np.sqrt: any function with 0 < x -> 0 < sqrt x and 0 <= sqrt x (theorems); Z.sqrt to 2^-60 (runs)"]
